@@ -106,6 +106,9 @@ fn run_ops(h: &serde_json::Value, mode: &str, fpath: &str) -> Result<(), Fail> {
     for (k, op) in h["ops"].as_array().cloned().unwrap_or_default().iter().enumerate() {
         let name = op["op"].as_str().unwrap_or("");
         match name {
+            "first" => {
+                first = op["first"].as_u64().unwrap_or(0);
+            }
             "open" => {
                 first = op["first"].as_u64().unwrap_or(0);
                 mgr = Some(run(LogInnerManager::init(fpath.to_string(), first, 0, 0)).map_err(|e| Fail::Property(format!("op {}: a fresh log file cannot be initialised: {}", k, e)))?);
